@@ -106,7 +106,32 @@ HISTORY_R3 = {
  "C20-m1": "NOT CAUGHT and outside the engine: needs a panic inside a using_encoded closure followed by another call on the same thread (Kani models panic as abort)",
  "C20-m2": "MISSED at first under C20 (Result was not in the per-configuration core list; C03's own no-std run catches it); c03q_res_u8_u16 added to the core list that runs with every optional feature off",
 }
-if os.environ.get("SEED_SUFFIX") == "-r3":
+HISTORY_R4 = {
+ "C01-m1": "MISSED at first (pointer-wrapped primitives as sequence ELEMENTS were only in thorough-tier matrix cells); c01q_seq_of_wrapped_primitives added and the matrix cells vec/arr3 x box_u8 forced into the quick tier",
+ "C02-m1": "MISSED at first (derived types were only checked as single values, bulk paths are selected per ELEMENT type); every small family struct is now also checked as a Vec / array element (c01q_derived_*_as_elem_enc, c02q_derived_*_as_elem_rt)",
+ "C03-m2": "MISSED at first under C03's quick tier (Vec<zero-sized-with-encoding> was a thorough-tier matrix cell; C02's c02q_zero_sized_elems_with_encoding catches it as-is); the cells vec/deque/list/arr3 x onev and x unit are now always in the quick tier",
+ "C05-m1": "MISSED at first (explicit discriminants only on unit variants); EDiscFields (#[repr(u8)], discriminants on tuple and struct variants) added to the family",
+ "C07-m2": "MISSED at first under C07 (a decode-side defect; C03's matrix cell vec x bool catches it, now always quick); c07q_bulk_decode_matches_elementwise added",
+ "C08-m1": "caught as-is by C19 (c19q_bytes_through_counted_*); under C08 it is not a difference between input kinds (value and consumption agree), so C08 does not report it",
+ "C08-m2": "MISSED at first (zero-width values were never decoded from an EMPTY shared buffer); c08q_bytes_empty_buffer_zero_width_values added",
+ "C09-m1": "MISSED at first (skip was never run on hostile counts); c09q_skip_* added (one-byte and 2^26 counts, slice-like and unknown-length inputs)",
+ "C10-m1": "MISSED at first (the ledger element did not report a fixed encoded size); TrF (ledger element overriding encoded_fixed_size) in arrays, boxes, vectors: c10q_fixed_size_elem_*",
+ "C12-m1": "MISSED at first (the memory limit was never applied underneath decode_with_depth_limit / CountedInput); c12q_composed_* added",
+ "C13-m1": "MISSED at first (no Result/Option/tuple in the fixed-size list); c13q_fix_res_u32_u16, c13q_fix_arr_res, ... added",
+ "C13-m2": "MISSED at first (encoded_fixed_size was never read on derived types); c13q_derived_*_fixed for the whole family",
+ "C14-m1": "MISSED at first under C14 (transparent newtypes through Box only under C02/C03/C05, where c03q_derived_stranszstenc_boxed_dec catches it as-is); c14q_derived_*_boxed_pfx added and h_prefix now also demands exact consumption of the full encoding",
+ "C14-m2": "MISSED at first (node-based collections never held empty-encoding items); c14q_empty_items_* added",
+ "C16-m1": "MISSED at first (EncodeLike string pairs only with 2-byte strings and only through encode_to); c16q_str_count_boundary_every_entry_point (63/64/65 bytes, every entry point) added",
+ "C16-m2": "MISSED at first (see C14-m2); c16q_empty_encoding_element_pairs added",
+ "C18-m1": "MISSED at first in the quick tier (see C03-m2: thorough-tier matrix cell); cells forced into the quick tier",
+ "C18-m2": "MISSED at first (skip was never compared with decode on derived types); c18q_derived_*_skip for the whole family",
+ "C19-m1": "NOT CAUGHT, outside the bounds: needs ONE successful read of >= 2^32 bytes (CBMC's object size limit; no way to hand the wrapper a 4 GiB buffer)",
+ "C20-m1": "MISSED at first under C20 (EncodeAppend harnesses ran only in C15's own no-std configuration, where c15q_zst_every_count_* catches it as-is); C15 harnesses added to C20's std / chain-error / no-ext runs",
+ "C20-m2": "MISSED at first under C20 (C03's no-std run catches it as-is via c03q_vec_unit_3); unit/phantom/ZST containers added to the core list that runs in every configuration",
+}
+if os.environ.get("SEED_SUFFIX") == "-r4":
+    HISTORY = HISTORY_R4
+elif os.environ.get("SEED_SUFFIX") == "-r3":
     HISTORY = HISTORY_R3
 elif os.environ.get("SEED_SUFFIX"):
     HISTORY = HISTORY_R2
